@@ -29,7 +29,7 @@ RC = Pred('RC', [Rule([('col0', Sub(z, 'a'), ''), ('col1', Op('Size', w), ''), (
                         ('i', If(Op('>', x, Lit(N(1))), Lit(S('big')), Lit(S('small'))), '')],
                       [Atom('E', [('col0', x), ('col1', y)]), Unify(z, RecE([('a', x), ('b', y)])), Unify(w, ListE([x, y, Lit(N(4))]))])])
 prog = Prog([E, T, P, Q, R, Dbl, F, U, NG, AG, LS, RC])
-case = {'id': 'smoke1', 'prog': prog, 'query': ['E', 'T', 'P', 'Q', 'R', 'F', 'U', 'NG', 'AG', 'LS', 'RC']}
+case = {'id': 'smoke1', 'stages': True, 'prog': prog, 'query': ['E', 'T', 'P', 'Q', 'R', 'F', 'U', 'NG', 'AG', 'LS', 'RC']}
 print(ir.RenderProgram(prog))
 res = semcheck.RunImpl([case])[0]
 for p, r in res['preds'].items():
